@@ -4,7 +4,7 @@
    The modelled operations (Model.v, ModelF.v) contain every conversion / wrap modulo 2^w of the C and RecInt types and
    every IEEE rounding explicitly, so "= exact residue" states that no overflow, wrap or rounding is observable. *)
 From Coq Require Import ZArith List.
-From C03 Require Import Model ModelF ModelDK Params ProofsInt ProofsEuclid ProofsIntInv ProofsRU ProofsFM ProofsBI ProofsBarrett ProofsBarrettM ProofsPrecomp ProofsMisc ProofsBF ProofsEX ProofsBN ProofsRnd ProofsEXM ProofsBIQ ProofsTop ProofsTop2.
+From C03 Require Import Model ModelF ModelDK Params ProofsInt ProofsEuclid ProofsIntInv ProofsRU ProofsFM ProofsBI ProofsBarrett ProofsBarrettM ProofsPrecomp ProofsMisc ProofsBF ProofsEX ProofsBN ProofsRnd ProofsEXM ProofsBIQ ProofsDKR ProofsDKQ ProofsDKS ProofsDK ProofsFB ProofsFInv ProofsTop ProofsTop2 ProofsTop3.
 Local Open Scope Z_scope.
 
 (* integral Modular<S,C>: every instantiated (Storage_t, Compute_t) pair, every p in [minCardinality, maxCardinality] *)
@@ -104,10 +104,10 @@ Print Assumptions C03_extended_ring_add_sub_neg_exact_advertised.
 (* the rounding layer itself: the model's round-to-nearest-even has relative error 2^-prec, is monotone, and leaves every
    multiple of 2^k with at most prec significant bits unchanged; the correctly rounded quotient div_dy has the same error *)
 Theorem C03_rounding_relative_error : forall prec z, 0 < prec -> 2 ^ prec * Z.abs (rn prec z - z) <= Z.abs z.
-Proof. exact rn_err. Qed.
+Proof. exact ProofsRnd.rn_err. Qed.
 Print Assumptions C03_rounding_relative_error.
 Theorem C03_rounding_exact_on_representable : forall prec k z, 0 < prec -> 0 <= k -> (2 ^ k | z) -> Z.abs z <= 2 ^ (k + prec) -> rn prec z = z.
-Proof. exact rn_exact_mult. Qed.
+Proof. exact ProofsRnd.rn_exact_mult. Qed.
 Print Assumptions C03_rounding_exact_on_representable.
 (* ModularExtended<float|double>, the `#ifdef FP_FAST_FMA[F]` branch (abh = a*b; abl = fma(a,b,-abh); q = floor(abh*_invp);
    pql = fma(-q,_p,abh); r = abl + pql; ONE of r >= p -> r - p, r < 0 -> r + p): for every advertised p and canonical operands the
@@ -141,3 +141,65 @@ Print Assumptions C03_balanced_int_hypotheses_satisfiable.
 Theorem C03_extended_split_constants_as_in_source : dk_splitc 53 = 2 ^ split_shift_double + 1 /\ dk_splitc 24 = 2 ^ split_shift_float + 1.
 Proof. exact split_constants_ok. Qed.
 Print Assumptions C03_extended_split_constants_as_in_source.
+
+(* ModularExtended<float|double>, the `#elif defined __SSE_MATH__` branch (no FMA: plain g++ -O2, -mno-fma): Veltkamp split
+   (c = rn(C*x), C = 2^27+1 resp. 2^13+1; xh = rn(c - rn(c - x)); xl = rn(x - xh)) and Dekker's product with each of its nine
+   roundings explicit are ERROR-FREE on the operands that occur (|x| < 2^(pe-3)): s = rn(a*b), s + t = a*b exactly ... *)
+Theorem C03_extended_dekker_product_error_free : forall pe s a b, dk_cfg pe s -> Z.abs a < 2 ^ (pe - 3) -> Z.abs b < 2 ^ (pe - 3) ->
+  fst (dk_mult pe a b) = rn pe (a * b) /\ fst (dk_mult pe a b) + snd (dk_mult pe a b) = a * b.
+Proof. exact dk_mult_exact. Qed.
+Print Assumptions C03_extended_dekker_product_error_free.
+(* ... hence mult_dekker(a,b); q = floor(abh*_invp); mult_dekker(-q,_p); r = (abh+pqh)+(abl+pql); ONE of r >= p -> r-p, r < 0 -> r+p
+   returns (a*b) mod p for every advertised p and canonical operands (also axpy/axmy/maxpy; reduce of 0 <= y < 2^pe, y/p < 2^(pe-3)) *)
+Theorem C03_extended_mul_dekker_exact_advertised : DK_mul_adv_stmt.   Proof. exact dk_mul_adv. Qed.
+Print Assumptions C03_extended_mul_dekker_exact_advertised.
+(* both correction steps are necessary in this branch too; the first witness is the failing input of the seeded change C03-m6
+   (dropped `else if (r < 0) r += _p`): p = 2^50-27, mul(617310115345394, 590673388087151) would return -10557406229982 *)
+Theorem C03_extended_mul_dekker_needs_negative_correction : exists p a b, 2 <= p <= 1125899906842623 /\ canon p a /\ canon p b /\
+  dk_mul_no_neg_fix 53 p a b <> (a * b) mod p.
+Proof. exact dk_mul_needs_neg_fix. Qed.
+Print Assumptions C03_extended_mul_dekker_needs_negative_correction.
+Theorem C03_extended_mul_dekker_needs_high_correction : exists p a b, 2 <= p <= 1125899906842623 /\ canon p a /\ canon p b /\
+  dk_mul_no_hi_fix 53 p a b <> (a * b) mod p.
+Proof. exact dk_mul_needs_hi_fix. Qed.
+Print Assumptions C03_extended_mul_dekker_needs_high_correction.
+Theorem C03_extended_mul_dekker_refuted_value : dk_mul_raw 53 1125899906842597 617310115345394 590673388087151 = - 10557406229982.
+Proof. exact dk_mul_raw_negative. Qed.
+Print Assumptions C03_extended_mul_dekker_refuted_value.
+(* the `#else` fallback branch (fmod of the double product / RecInt lmul + mod_n) *)
+Theorem C03_extended_mul_fallback_exact_advertised : FB_mul_adv_stmt.   Proof. exact fb_mul_adv. Qed.
+Print Assumptions C03_extended_mul_fallback_exact_advertised.
+(* whichever branch index the compiled implementation reports, the model the correspondence run drives is exact *)
+Theorem C03_extended_mul_every_preprocessor_branch_exact_advertised : XB_mul_adv_stmt.   Proof. exact xb_mul_adv. Qed.
+Print Assumptions C03_extended_mul_every_preprocessor_branch_exact_advertised.
+
+(* inv / div / isUnit of the floating rings: extended_euclid<floating Storage_t> (modular-general.inl) with q = floor(u3 / v3)
+   computed from the ROUNDED quotient.  The floor of the correctly rounded quotient of two integers of magnitude <= 2^prec is the
+   exact floor ... *)
+Theorem C03_floating_quotient_floor_exact : fquot_exact_stmt.   Proof. exact fquot_exact. Qed.
+Print Assumptions C03_floating_quotient_floor_exact.
+(* ... so the loop is the exact signed extended Euclid (every one of its four roundings per step is the identity): d = gcd(a,b),
+   |x| <= b, x*a = d (mod b); it terminates *)
+Theorem C03_floating_extended_euclid_exact : feuclid_exact_stmt.   Proof. exact feuclid_exact. Qed.
+Print Assumptions C03_floating_extended_euclid_exact.
+(* Modular<float>, Modular<float,double>, Modular<double>; ModularExtended<float|double> (div through the FMA-branch mul);
+   ModularBalanced<float|double> (operands may be negative): for every p up to maxCardinality and every unit divisor the inverse /
+   quotient is the canonical exact one, and isUnit(a) <-> gcd(a,p) = 1 for every canonical a *)
+Theorem C03_floating_inv_exact : FM_inv_stmt.           Proof. exact fm_inv_exact. Qed.
+Print Assumptions C03_floating_inv_exact.
+Theorem C03_floating_div_divin_exact : FM_div_stmt.     Proof. exact fm_div_exact. Qed.
+Print Assumptions C03_floating_div_divin_exact.
+Theorem C03_floating_isUnit_iff_gcd_one : FM_isUnit_stmt.   Proof. exact fm_isUnit_exact. Qed.
+Print Assumptions C03_floating_isUnit_iff_gcd_one.
+Theorem C03_extended_inv_exact : EX_inv_stmt.           Proof. exact ex_inv_exact. Qed.
+Print Assumptions C03_extended_inv_exact.
+Theorem C03_extended_div_divin_exact : EX_div_stmt.     Proof. exact ex_div_exact. Qed.
+Print Assumptions C03_extended_div_divin_exact.
+Theorem C03_extended_isUnit_iff_gcd_one : EX_isUnit_stmt.   Proof. exact ex_isUnit_exact. Qed.
+Print Assumptions C03_extended_isUnit_iff_gcd_one.
+Theorem C03_balanced_floating_inv_exact : BF_inv_stmt.  Proof. exact bf_inv_exact. Qed.
+Print Assumptions C03_balanced_floating_inv_exact.
+Theorem C03_balanced_floating_div_exact : BF_div_stmt.  Proof. exact bf_div_exact. Qed.
+Print Assumptions C03_balanced_floating_div_exact.
+Theorem C03_balanced_floating_isUnit_iff_gcd_one : BF_isUnit_stmt.   Proof. exact bf_isUnit_exact. Qed.
+Print Assumptions C03_balanced_floating_isUnit_iff_gcd_one.
